@@ -208,6 +208,70 @@ func bitRefs(w *World, fn *ssa.Function) []BitRef {
 	return out
 }
 
+// bitKnownSet reports whether the branch conditions conds imply that the single bit read by br is 1.
+// AND form (use = w & sel, sel a single-bit selector): use != 0, use > 0 (unsigned), use == sel.
+// SHR form (use = w >> off): s = use & 1 (or a conversion of it): s != 0, s == 1, s > 0.
+func bitKnownSet(conds []Cond, br *BitRef) bool {
+	if br == nil || br.Use == nil {
+		return false
+	}
+	ub, _ := br.Use.(*ssa.BinOp)
+	single := map[ssa.Value]bool{}
+	var sel ssa.Value
+	if ub != nil && ub.Op == token.AND {
+		single[br.Use] = true
+		sel = ub.Y
+		if _, ok := selectorOffset(ub.Y); !ok {
+			sel = ub.X
+		}
+	} else if ub != nil && ub.Op == token.SHR && br.Use.Referrers() != nil {
+		for _, ref := range *br.Use.Referrers() {
+			if b, ok := ref.(*ssa.BinOp); ok && b.Op == token.AND {
+				for _, o := range []ssa.Value{b.X, b.Y} {
+					if k, ok := constUint64(o); ok && k == 1 {
+						single[b] = true
+					}
+				}
+			}
+		}
+	}
+	for _, cd := range conds {
+		bo, ok := cd.V.(*ssa.BinOp)
+		if !ok {
+			continue
+		}
+		x, y, op := stripConv(bo.X), stripConv(bo.Y), bo.Op
+		if single[y] && !single[x] {
+			x, y = y, x
+			switch op {
+			case token.LSS:
+				op = token.GTR
+			case token.GTR:
+				op = token.LSS
+			case token.LEQ:
+				op = token.GEQ
+			case token.GEQ:
+				op = token.LEQ
+			}
+		}
+		if !single[x] {
+			continue
+		}
+		k, isK := constUint64(y)
+		switch {
+		case isK && k == 0 && (op == token.NEQ && cd.Pol || op == token.EQL && !cd.Pol):
+			return true
+		case isK && k == 0 && isUnsigned(x.Type()) && (op == token.GTR && cd.Pol || op == token.LEQ && !cd.Pol):
+			return true
+		case isK && k == 1 && sel == nil && (op == token.EQL && cd.Pol || op == token.NEQ && !cd.Pol || op == token.GEQ && cd.Pol || op == token.LSS && !cd.Pol):
+			return true // s = (w>>off)&1 is 0 or 1
+		case sel != nil && !isK && y == stripConv(sel) && (op == token.EQL && cd.Pol || op == token.NEQ && !cd.Pol):
+			return true
+		}
+	}
+	return false
+}
+
 // ReportBitRefs files R-BITREF obligations: the word and the bit of every single-bit access are selected by the same position.
 func ReportBitRefs(w *World, r *Report, fnNames ...string) map[string][]BitRef {
 	r.Rule("R-BITREF", "in every single-bit access C[x>>6] op (1<<(y&63)) / Bit[y&63] / >>(y&63) the word index and the in-word offset derive from the same position (x = y) with a 6-bit offset: otherwise a different bit than intended is read or written")
